@@ -35,6 +35,8 @@ ObsInit == [call |-> EmptyFun, sub |-> EmptyFun,
             dialsAfterClose |-> 0, dials |-> 0, srvCancels |-> {},
             inWriter |-> EmptyFun,   \* library connection -> writer kind currently inside its write-lock section ("" if none)
             lockViol |-> 0,          \* overlapping write sections / sections entered without the lock held
+            retained |-> 0,          \* library goroutines still labelled with a dead server connection at quiescence
+            revBlocked |-> {},       \* reverse calls that blocked (or succeeded) after their client's connection was gone
             scName |-> "",           \* name of the scenario (from the reset event)
             crashed |-> FALSE,       \* the process hosting the code under test died
             ctxMissing |-> {},       \* calls whose handler waited in vain for its context to be cancelled
@@ -102,6 +104,8 @@ ObsStep(o, e) ==
          [o EXCEPT !.lockViol = IF Get(o.inWriter, e.conn, "") # "" \/ ~e.locked THEN @ + 1 ELSE @,
                    !.inWriter = Upd(o.inWriter, e.conn, e.w)]
     [] e.ev = "h:wl.exit" -> [o EXCEPT !.inWriter = Upd(o.inWriter, e.conn, "")]
+    [] e.ev = "ConnGoroutines" -> [o EXCEPT !.retained = @ + e.n + (IF e.connEnded THEN 0 ELSE 1)]
+    [] e.ev = "RevCallEnd" -> [o EXCEPT !.revBlocked = IF ~e.failed THEN @ \cup {e.call} ELSE @]
     [] e.ev = "ProcessExit" -> [o EXCEPT !.crashed = TRUE]
     [] e.ev = "CtxMissing"  -> [o EXCEPT !.ctxMissing = @ \cup {e.call}]
     [] e.ev = "WireFault"  -> [o EXCEPT !.faults = @ + 1, !.faultAfterUp = TRUE]
@@ -191,7 +195,14 @@ Always_C13(o) ==
      t \in {t \in Calls(o) : o.call[t].ends >= 1 /\ o.faults = 0 /\ ~(o.call[t].outcome = "herr" /\ o.call[t].detail = "panic")
                              /\ (o.call[t].kind \in PanicKinds \/ (o.call[t].kind = "sub" /\ o.scName = "c13.panic" /\ t \in {9, 19}))}}
 
-Always(o) == Always_C13(o) \cup Always_Crash(o) \cup Always_C06b(o) \cup Always_C05(o) \cup Always_C05b(o) \cup Always_C02(o) \cup Always_C04(o) \cup Always_C06(o) \cup Always_C07(o) \cup Always_C08(o) \cup Always_C14(o) \cup Always_C18(o)
+\* C15: the server cancels the handlers of a dead connection and lets go of it
+Always_C15(o) ==
+  (IF o.retained > 0 THEN {<<"C15", "goroutines-retained-for-dead-connection", 0>>} ELSE {})
+  \cup {<<"C15", "handler-context-not-cancelled-at-connection-end", t>> : t \in IF o.scName = "c15.end" THEN o.ctxMissing ELSE {}}
+\* C16: a reverse call made after its client is gone returns an error, it neither blocks nor succeeds
+Always_C16(o) == {<<"C16", "reverse-call-blocked-after-connection-loss", t>> : t \in o.revBlocked}
+
+Always(o) == Always_C15(o) \cup Always_C16(o) \cup Always_C13(o) \cup Always_Crash(o) \cup Always_C06b(o) \cup Always_C05(o) \cup Always_C05b(o) \cup Always_C02(o) \cup Always_C04(o) \cup Always_C06(o) \cup Always_C07(o) \cup Always_C08(o) \cup Always_C14(o) \cup Always_C18(o)
 
 \* at quiescence q (a Quiesce event): nothing may be outstanding
 Quiet(o, q) ==
